@@ -263,6 +263,27 @@ def _c_linear(chk):
               sample="identity for |Re|,|Im| >= tol")
 
 
+def generating_function_slots(chk):
+    """Generating functions produced on the way to a normal form are stored under the slot get_generating_functions reads for
+    that transform (partial <- complex_partial_normal, full <- complex_full_normal); also re-filed by C08.d."""
+    pmod, pcls = ri.find_def(PL, "HamiltonianPipeline")
+    for form, key in (("complex_partial_normal", "generating_functions_partial"), ("complex_full_normal", "generating_functions_full"),
+                      ("real_modal", None)):
+        pipe = SymObj(ClassRef(pmod, pcls), {"_generating_function_cache": {}}, "pipe")
+        ipx = Interp()
+        ipx.apply(ipx.getattr(pipe, "_store_generating_functions"), [form, sp.Symbol("GF")], {})
+        cache = pipe.attrs["_generating_function_cache"]
+        chk.check(cache == ({key: sp.Symbol("GF")} if key else {}), "C18.b", f"{PL}::HamiltonianPipeline._store_generating_functions[{form}]",
+                  f"generating functions of {form} stored under {list(cache)} (expected {key})", sample=f"{form} -> {key}")
+    # ... and get_generating_functions(kind) reads the slot of its own kind
+    for kind, key in (("partial", "generating_functions_partial"), ("full", "generating_functions_full")):
+        pipe = SymObj(ClassRef(pmod, pcls), {"_generating_function_cache": {"generating_functions_partial": sp.Symbol("GP"), "generating_functions_full": sp.Symbol("GFULL")}}, "pipe")
+        ipx = Interp()
+        got = ipx.apply(ipx.getattr(pipe, "get_generating_functions"), [kind], {})
+        chk.check(got == (sp.Symbol("GP") if kind == "partial" else sp.Symbol("GFULL")), "C18.b", f"{PL}::HamiltonianPipeline.get_generating_functions[{kind}]",
+                  f"get_generating_functions('{kind}') returns {got}", sample=f"{kind} -> {key}")
+
+
 def _d_pointwise(chk):
     R = Radicals()
     mu, gam = sp.Symbol("mu", positive=True), sp.Symbol("gamma", positive=True)
@@ -342,16 +363,8 @@ def _service_level(chk):
     forms = set(edges) | {d for v in edges.values() for d in v}
     chk.check(forms <= seen, "C18.a", f"{WR}[registry reachability]", f"forms not reachable from 'physical': {sorted(forms - seen)}",
               sample=f"{len(forms)} forms reachable from 'physical' through {sum(len(v) for v in edges.values())} edges")
-    # generating-function cache keys match the forms that produce them
+    generating_function_slots(chk)
     pmod, pcls = ri.find_def(PL, "HamiltonianPipeline")
-    for form, key in (("complex_partial_normal", "generating_functions_partial"), ("complex_full_normal", "generating_functions_full"),
-                      ("real_modal", None)):
-        pipe = SymObj(ClassRef(pmod, pcls), {"_generating_function_cache": {}}, "pipe")
-        ipx = Interp()
-        ipx.apply(ipx.getattr(pipe, "_store_generating_functions"), [form, sp.Symbol("GF")], {})
-        cache = pipe.attrs["_generating_function_cache"]
-        chk.check(cache == ({key: sp.Symbol("GF")} if key else {}), "C18.b", f"{PL}::HamiltonianPipeline._store_generating_functions[{form}]",
-                  f"generating functions of {form} stored under {list(cache)} (expected {key})", sample=f"{form} -> {key}")
     # builder selection by point kind (shared with C07.d)
     for kind, want, mix in (("collinear", "_build_physical_hamiltonian_collinear", (1, 2)), ("triangular", "_build_physical_hamiltonian_triangular", (0, 1, 2))):
         pipe = SymObj(ClassRef(pmod, pcls), {}, "pipe")
